@@ -59,4 +59,10 @@ CHECKS = {
         "level_note": "P5 is deliberately conservative; D12/D13 are known findings reported through labelled probes.",
         "technique": "runtime oracles over SentenceSplitter output (invariant + conservative converse) under seeded workloads",
     },
+    "C15": {
+        "level_text": "Exploration with an oracle by construction: numerals are generated from a value structure that also yields the expected decimal rendering (no code shared with numeric_parser), embedded in texts and analysed by the real tokenizer + JoinNumericPlugin; mutated numerals are re-evaluated token by token with an independent evaluator. Held on the counted numerals.",
+        "design_ref": "DESIGN.md 6/C15",
+        "level_note": "Trusts the generator/evaluator pair (cross-checked against each other on every well-formed numeral at run time).",
+        "technique": "oracle-by-construction monitor (generate from value, compare rendering) + independent evaluator for near-miss inputs",
+    },
 }
